@@ -106,7 +106,9 @@ def gen(rng, n_cases, classes=("rnc", "constr")):
         # individuals carrying a feasibility tolerance (pymoo's AdaptiveEpsilonConstraintHandling sets one)
         cv_eps = float(rng.choice([0.05, 0.5, 1.0])) if rng.randint(6) == 0 else 0.0
         inf_F = False
-        if cls == "rnc" and rng.randint(15) == 0 and n >= 3:
+        if cls == "rnc" and rng.randint(15) == 0 and n >= 3 and metric != "pcd":
+            # (not with pcd: two infinite values are a tied maximum, on which the compiled pcd kernel reads outside its
+            # arrays - known finding F2 of C13 - and may take the interpreter down)
             # +inf objective values (penalised / failed evaluations): dominance and ranks are still well defined.
             # The crowding values of such fronts are NaN-ridden in NumPy, so these records are judged by the
             # rank / feasibility oracles only and are not sent to the Lean model.
